@@ -3,6 +3,7 @@ mod c02;
 mod c03;
 mod c04;
 mod c05;
+mod c08;
 mod c09;
 mod c11;
 mod live;
@@ -93,6 +94,7 @@ fn main() {
         ("gen", "C02") => { c02::generate(seed, &tier, &mut out); c01::generate("C02", seed, &tier, &mut out) }
         ("gen", "C03") => c03::generate(seed, &tier, &mut out),
         ("gen", "C14") => c14::generate(seed, &tier, &mut out),
+        ("gen", "C08") => c08::generate(seed, &tier, &mut out),
         ("gen", "C11") => c11::generate(seed, &tier, &mut out),
         ("gen", "C17") => c17::generate(seed, &tier, &mut out),
         ("gen", "C19") => c19::generate(seed, &tier, &mut out),
